@@ -13,6 +13,10 @@ class Stats:
         self.samples = []
         self.worst = {}
         self.failures = []
+        self.skipped = {}     # reason -> count: generated pairs that fall outside the property's quantifier
+
+    def skip(self, reason):
+        self.skipped[reason] = self.skipped.get(reason, 0) + 1
 
     def check(self, clause, value, bound, case, detail=None):
         """value <= bound or failure; value is a non-negative defect measure"""
@@ -27,7 +31,7 @@ class Stats:
 
     def out(self):
         return self.failures, dict(evaluations=self.evaluations, distinct=len(self.distinct), samples=self.samples[:4],
-                                   worst_over_bound=self.worst, clauses=sorted(self.worst))
+                                   worst_over_bound=self.worst, clauses=sorted(self.worst), outside_quantifier=self.skipped)
 
 
 def case_id(c):
@@ -790,6 +794,21 @@ def oracle_C05(objs, st=None, nshifts=2):
                 q2 = build(kw)
             except Exception as ex:
                 st.check('shifted description constructs', 1.0, 0.0, cid, detail=str(ex)[:200])
+                continue
+            # the quantifier of C05 is 'inputs on which the first-order solve converges': that must hold for BOTH descriptions.
+            # The shifted description starts Newton from a different guess (sigma0 differs), so on ill-conditioned inputs it
+            # may stall or find another root of the discrete system.  What the property needs from the code is decided first:
+            # the shifted original solution must be a root of the shifted discrete system (covariance of the residual).
+            x_exp = np.concatenate(([q.iota], np.roll(q.sigma, -k)[1:]))
+            r_exp = float(np.sqrt(np.sum(q2._residual(x_exp) ** 2)))
+            r_own = float(np.sqrt(np.sum(q2._residual(np.concatenate(([q2.iota], q2.sigma[1:]))) ** 2)))
+            if not st.check('origin shift: the shifted solution solves the shifted discrete sigma equation', r_exp, 1e-8 * (1 + float(np.max(np.abs(q.sigma)))) , dict(cid, shift=k)):
+                continue
+            if not (r_own <= 1e-9):
+                st.skip('Newton did not converge in the shifted description (its residual %s): outside the quantifier' % ('> 1e-9',))
+                continue
+            if abs(q2.iota - q.iota) > 1e-6 * (1 + abs(q.iota)):
+                st.skip('the shifted description converged to a different root of the discrete system (both residuals < 1e-9): local uniqueness fails, outside the quantifier')
                 continue
             def mp(name, v):
                 if name in COORD_ATTRS or name in ('sigma0',):
